@@ -322,9 +322,8 @@ func checkSegment(c *lib.Ctx, id string, in segIn, ref lib.SegObs, ts int64, o s
 	switch {
 	case in.cue() > 1000:
 		stream = "long-cue:"
-	case (T0+in.StartS*1000)%1000 >= in.cue():
-		stream = "late-start:"
 	}
+	_ = T0
 	fail := func(key, what string) {
 		if key == "long-cue" || key == "cue-end-before-begin:late-start" {
 			c.Fail(id, key, what, in)
@@ -1366,6 +1365,82 @@ func replayC12(c *lib.Ctx) error {
 		f, err := mp4.DecodeFile(bytes.NewReader(ri.Body))
 		if err != nil || f.Init == nil {
 			return fmt.Errorf("%s: %v", initURL, err)
+		}
+		if in.Concurrent {
+			// the request together with a crowd of other subtitle requests on the same server
+			trex := f.Init.Moov.Mvex.Trex
+			stop := make(chan struct{})
+			var wg sync.WaitGroup
+			for w := 0; w < 40; w++ {
+				wg.Add(1)
+				go func(w int) {
+					defer wg.Done()
+					rr := rand.New(rand.NewSource(int64(w)))
+					for {
+						select {
+						case <-stop:
+							return
+						default:
+						}
+						n := rr.Intn(60000)
+						kind := []string{"timestpp-", "timewvtt-"}[rr.Intn(2)]
+						u := fmt.Sprintf("/livesim2/timesubsstpp_en,sv,fi,de/timesubswvtt_en,sv,fi,de/timesubsreg_%d/%s/%s%s/%d.m4s?nowMS=%d",
+							rr.Intn(2), in.Asset, kind, []string{"en", "sv", "fi", "de"}[rr.Intn(4)], n, (n+2)*10000)
+						ls.GetRaw(u)
+					}
+				}(w)
+			}
+			tries := 0
+			var mu sync.Mutex
+			failed := false
+			for w := 0; w < 8; w++ {
+				wg.Add(1)
+				go func() {
+					defer wg.Done()
+					for {
+						mu.Lock()
+						if failed || tries >= 15000 {
+							mu.Unlock()
+							return
+						}
+						tries++
+						mu.Unlock()
+						o := parseSubSegment(ls.GetRaw(in.URL), in.Wvtt, trex)
+						mu.Lock()
+						if !failed {
+							before := len(c.Res.OracleFailures)
+							if o.Status == -1 {
+								c.Fail("replay", "concurrent:malformed-segment", o.Err, in)
+							} else {
+								checkSegment(c, "replay", in, ro, ref.Timescale, o)
+							}
+							if len(c.Res.OracleFailures) > before {
+								failed = true
+								for i := before; i < len(c.Res.OracleFailures); i++ {
+									if !strings.HasPrefix(c.Res.OracleFailures[i].Key, "concurrent:") {
+										c.Res.OracleFailures[i].Key = "concurrent:" + c.Res.OracleFailures[i].Key
+									}
+								}
+							}
+						}
+						mu.Unlock()
+					}
+				}()
+			}
+			// wait for the checkers, then stop the crowd
+			for {
+				time.Sleep(50 * time.Millisecond)
+				mu.Lock()
+				done := failed || tries >= 15000
+				mu.Unlock()
+				if done {
+					break
+				}
+			}
+			close(stop)
+			wg.Wait()
+			fmt.Printf("replay C12: %s issued %d times among concurrent subtitle requests: failure %v\n", in.URL, tries, failed)
+			return nil
 		}
 		o := parseSubSegment(ls.GetRaw(in.URL), in.Wvtt, f.Init.Moov.Mvex.Trex)
 		fmt.Printf("replay C12: %s -> %d nr=%d tfdt=%d dur=%d cues=%s samples=%d (reference %s: nr=%d tfdt=%d dur=%d /%d)\n", in.URL, o.Status, o.Nr, o.Time, o.Dur, fmtGot(o.Cues), len(o.Samples), in.RefURL, ro.Seq, ro.Tfdt, ro.Dur, ref.Timescale)
